@@ -142,6 +142,38 @@ func rewriteDoc(s J, root J, doc interface{}, o rewriteOpts) interface{} {
 	return doc
 }
 
+// strictImplicit adds additionalProperties:false to every schema object that declares properties and has no
+// additionalProperties keyword.
+func strictImplicit(v interface{}) interface{} {
+	switch t := v.(type) {
+	case map[string]interface{}:
+		o := make(J, len(t)+1)
+		for k, x := range t {
+			o[k] = strictImplicit(x)
+		}
+		if _, isProps := t["properties"].(map[string]interface{}); isProps && t["type"] == "object" {
+			if _, has := t["additionalProperties"]; !has {
+				o["additionalProperties"] = false
+			}
+		}
+		return o
+	case []interface{}:
+		o := make([]interface{}, len(t))
+		for i, x := range t {
+			o[i] = strictImplicit(x)
+		}
+		return o
+	}
+	return v
+}
+
+// formattedLeaf reports whether an invalidLeaves entry ("type/format[keywords] value v") has a format.
+func formattedLeaf(s string) bool {
+	i := strings.Index(s, "/")
+	j := strings.Index(s, "[")
+	return i >= 0 && j > i+1
+}
+
 func instanceClass(s J, root J, doc interface{}) string {
 	switch d := doc.(type) {
 	case map[string]interface{}:
@@ -263,7 +295,9 @@ func runModels(prop, tier, replay string) int {
 		// strict mode: additionalProperties:false must reject undeclared keys
 		var strictDefs []DefCase
 		for _, d := range defs {
-			if strings.Contains(d.Chain, "addl-false") {
+			// allOf compositions are outside the strict-mode alphabet: the generator flattens the members into
+			// one struct, for which "undeclared" has no JSON-schema counterpart per member
+			if strings.Contains(d.Chain, "addl-false") && !strings.Contains(d.Chain, "allOf") {
 				strictDefs = append(strictDefs, d)
 			}
 		}
@@ -311,6 +345,15 @@ func evalModels(r *evid.Run, prop string, run *ModelRun, defs []DefCase, inst fu
 	parallel(len(results), 16, func(_, i int) {
 		m, res := metas[i], results[i]
 		root := J{"definitions": m.d.Defs()}
+		schema := m.d.Schema
+		if strict {
+			// --strict-additional-properties treats an object that declares properties and says nothing about
+			// additionalProperties like additionalProperties:false (the repository's own
+			// TestGenModel_StrictAdditionalProperties asserts this for its "Implicit" object); the reference
+			// schema is rewritten accordingly
+			schema = strictImplicit(schema).(J)
+			root = strictImplicit(root).(J)
+		}
 		cs := modelCase{Def: m.d, Doc: m.doc, Strict: strict}
 		key := fmt.Sprintf("%s|%s|%v", m.d.Name, mustJSON(m.doc), strict)
 		sample := map[string]interface{}{"def": m.d.Desc, "schema": m.d.Schema, "doc": m.doc}
@@ -323,22 +366,22 @@ func evalModels(r *evid.Run, prop string, run *ModelRun, defs []DefCase, inst fu
 			return
 		}
 		gen := res.UnmarshalErr == "" && res.ValidateErr == ""
-		ref := refValid(m.d.Schema, root, m.doc)
+		ref := refValid(schema, root, m.doc)
 		if prop == "C02" {
 			outcome := ""
 			switch {
 			case gen == ref:
 				outcome = fmt.Sprintf("agree(%v)", gen)
 			default:
-				d1 := rewriteDoc(m.d.Schema, root, m.doc, rewriteOpts{dropUndeclared: true, strict: strict})
-				d2 := rewriteDoc(m.d.Schema, root, m.doc, rewriteOpts{dropZero: true, strict: strict})
-				d12 := rewriteDoc(m.d.Schema, root, m.doc, rewriteOpts{dropUndeclared: true, dropZero: true, strict: strict})
+				d1 := rewriteDoc(schema, root, m.doc, rewriteOpts{dropUndeclared: true, strict: strict})
+				d2 := rewriteDoc(schema, root, m.doc, rewriteOpts{dropZero: true, strict: strict})
+				d12 := rewriteDoc(schema, root, m.doc, rewriteOpts{dropUndeclared: true, dropZero: true, strict: strict})
 				switch {
-				case !jsonEqual(d1, m.doc) && refValid(m.d.Schema, root, d1) == gen:
+				case !jsonEqual(d1, m.doc) && refValid(schema, root, d1) == gen:
 					outcome = "agree-via-tolerance(i:undeclared-ignored)"
-				case !jsonEqual(d2, m.doc) && refValid(m.d.Schema, root, d2) == gen:
+				case !jsonEqual(d2, m.doc) && refValid(schema, root, d2) == gen:
 					outcome = "agree-via-tolerance(ii:zero-as-absent)"
-				case !jsonEqual(d12, m.doc) && refValid(m.d.Schema, root, d12) == gen:
+				case !jsonEqual(d12, m.doc) && refValid(schema, root, d12) == gen:
 					outcome = "agree-via-tolerance(i+ii)"
 				default:
 					outcome = "DISAGREE"
@@ -346,12 +389,14 @@ func evalModels(r *evid.Run, prop string, run *ModelRun, defs []DefCase, inst fu
 					if !gen {
 						dir = "generated model REJECTS a document the schema accepts"
 					}
-					ic := instanceClass(m.d.Schema, root, m.doc)
+					ic := instanceClass(schema, root, m.doc)
 					sig := fmt.Sprintf("%s | %s | %s | gen=%v", m.d.Chain, m.d.Kw, ic, gen)
 					if gen {
 						// the generated model accepts: if exactly one leaf value is invalid for its leaf
 						// schema, that (leaf type, value) pair is the signature whatever the context
-						if bad := invalidLeaves(m.d.Schema, root, m.doc, nil); len(bad) == 1 {
+						// ... provided the leaf carries a format: format leniency lives in strfmt and does not
+						// depend on the context, any other lost validation is reported per context chain
+						if bad := invalidLeaves(schema, root, m.doc, nil); len(bad) == 1 && formattedLeaf(bad[0]) {
 							sig = "accepts-invalid-leaf " + bad[0]
 						}
 					}
